@@ -2,14 +2,28 @@
 """mkmut.py Cxx [n]  -> writes /root/prompts/mut/Cxx.txt and creates worktree /tmp/mut-Cxx"""
 import json, sys, subprocess, os
 pid = sys.argv[1]; n = int(sys.argv[2]) if len(sys.argv) > 2 else 3
+bank = sys.argv[3] if len(sys.argv) > 3 else ""
 p = [json.loads(l) for l in open('/verif/properties.jsonl') if json.loads(l)['id'] == pid][0]
-wt = '/tmp/mut-%s' % pid
-out = '/tmp/mut-%s-out' % pid
+wt = '/tmp/mut-%s%s' % (pid, bank)
+out = '/tmp/mut-%s%s-out' % (pid, bank)
 if not os.path.exists(wt):
     subprocess.run(['git', '-C', '/repo', 'worktree', 'add', '--detach', wt, 'HEAD'], check=True, capture_output=True)
 os.makedirs(out, exist_ok=True)
 anch = p['anchors']
-txt = f"""You have your own scratch git worktree of the Go project lopolopen/shoot (a `go generate` toolkit: `shoot new|enum|rest|map` generate constructors/accessors, enum helpers, REST clients and struct mappers from templates) at {wt} (work ONLY there and in {out}; never touch /repo or /verif; do not read anything under /verif). Go environment for every shell call: `export GOFLAGS=-mod=mod GOPROXY=off` (do NOT set GOTOOLCHAIN or GOSUMDB; there is no network). The test suite is `cd {wt} && go test -vet=off -count=1 ./...` (53 tests, goldens under cmd/testdata). Build the tool with `cd {wt} && go build -o /tmp/mut-{pid}-out/shoot ./cmd/shoot`. ALWAYS run the shoot binary under `timeout 20` (some inputs make it loop). A scratch Go module that imports shoot needs a go.mod with `go 1.24.0`, `toolchain go1.24.6`, `require github.com/lopolopen/shoot v0.0.0`, `replace github.com/lopolopen/shoot => {wt}` and a copy of {wt}/go.sum. Files named export_verif.go and cmd/verifprobe are test hooks behind the build tag `verif`: leave them alone.
+known = ""
+if bank:
+    import glob
+    ks = []
+    for m in sorted(glob.glob('/verif/seeded/%s-*/meta.json' % pid)):
+        try:
+            ks.append("- " + " ".join(str(json.load(open(m)).get("summary", "")).split())[:400])
+        except Exception:
+            pass
+    if ks:
+        known = ("\nAn earlier round already produced the following changes; yours must differ from them in mechanism AND code site "
+                 "(look for other functions, other flags, other input shapes, other phases of the run):\n" + "\n".join(ks) + "\n")
+dirs = ", ".join("%s%d" % (bank, i) for i in range(1, n + 1)) if bank else "1..%d" % n
+txt = f"""You have your own scratch git worktree of the Go project lopolopen/shoot (a `go generate` toolkit: `shoot new|enum|rest|map` generate constructors/accessors, enum helpers, REST clients and struct mappers from templates) at {wt} (work ONLY there and in {out}; never touch /repo or /verif; do not read anything under /verif). Go environment for every shell call: `export GOFLAGS=-mod=mod GOPROXY=off` (do NOT set GOTOOLCHAIN or GOSUMDB; there is no network). The test suite is `cd {wt} && go test -vet=off -count=1 ./...` (53 tests, goldens under cmd/testdata). Build the tool with `cd {wt} && go build -o {out}/shoot ./cmd/shoot`. ALWAYS run the shoot binary under `timeout 20` (some inputs make it loop). A scratch Go module that imports shoot needs a go.mod with `go 1.24.0`, `toolchain go1.24.6`, `require github.com/lopolopen/shoot v0.0.0`, `replace github.com/lopolopen/shoot => {wt}` and a copy of {wt}/go.sum. Files named export_verif.go and cmd/verifprobe are test hooks behind the build tag `verif`: leave them alone.
 
 Here is a semantic property the project is supposed to satisfy:
 
@@ -18,9 +32,10 @@ Here is a semantic property the project is supposed to satisfy:
   QUANTIFIED OVER: {p['quantifier']['text']}
   CODE ANCHORS: {json.dumps(anch)}
 
-Task: produce {n} different, independent code changes (mutations) to the project, each of which BREAKS this property while the project still compiles (`go build ./...`) and the existing test suite still passes unchanged. Prefer changes that need something specific to manifest (a particular multi-step sequence of operations, an unusual but legal input inside the quantified domain, a particular interleaving or crash point, a specific flag combination, two cooperating edits that each look fine alone) rather than ones that ordinary use would expose at once; make them look like plausible refactorings or "improvements". They must be genuine violations of the property AS STATED for inputs inside the quantified domain (not merely different generated text), and they must differ from each other in mechanism and in the code site they touch. Do not edit tests, goldens, go.mod or the hook files.
+Task: produce {n} different, independent code changes (mutations) to the project, each of which BREAKS this property while the project still compiles (`go build ./...`) and the existing test suite still passes unchanged. Prefer changes that need something specific to manifest (a particular multi-step sequence of operations, an unusual but legal input inside the quantified domain, a particular interleaving or crash point, a specific flag combination, two cooperating edits that each look fine alone) rather than ones that ordinary use would expose at once; make them look like plausible refactorings or "improvements". {known}
+They must be genuine violations of the property AS STATED for inputs inside the quantified domain (not merely different generated text), and they must differ from each other in mechanism and in the code site they touch. Do not edit tests, goldens, go.mod or the hook files.
 
-For each mutation i = 1..{n} write into {out}/<i>/: `patch.diff` (output of `git diff` in the worktree, applicable with `git apply` to the original HEAD), a demonstration (either `demo_test.go` plus a note where to drop it, or a self-contained directory `demo/` with a `run.sh` that takes the path of a shoot checkout as $1, builds what it needs from that checkout, and exits 0 when the property holds and non-zero when it is violated) that FAILS with the change applied and PASSES on the clean tree, and `meta.json` {{"property":"{pid}","summary":...,"needs_to_manifest":...,"files_changed":[...],"how_to_run_demo":...}}. Verify each yourself: with the patch applied `go build ./... && go test -vet=off -count=1 ./...` passes (without the demo file), the demo fails with the patch and passes on the clean tree. Between mutations restore the worktree with `git -C {wt} checkout -- . && git -C {wt} clean -fd`. Leave the worktree clean at the end. Final message: a short list of the mutations and what each needs to manifest.
+For each mutation write into its own directory {out}/<d>/ with <d> in {dirs}: `patch.diff` (output of `git diff` in the worktree, applicable with `git apply` to the original HEAD), a demonstration (either `demo_test.go` plus a note where to drop it, or a self-contained directory `demo/` with a `run.sh` that takes the path of a shoot checkout as $1, builds what it needs from that checkout, and exits 0 when the property holds and non-zero when it is violated) that FAILS with the change applied and PASSES on the clean tree, and `meta.json` {{"property":"{pid}","summary":...,"needs_to_manifest":...,"files_changed":[...],"how_to_run_demo":...}}. Verify each yourself: with the patch applied `go build ./... && go test -vet=off -count=1 ./...` passes (without the demo file), the demo fails with the patch and passes on the clean tree. Between mutations restore the worktree with `git -C {wt} checkout -- . && git -C {wt} clean -fd`. Leave the worktree clean at the end. Final message: a short list of the mutations and what each needs to manifest.
 """
-open('/root/prompts/mut/%s.txt' % pid, 'w').write(txt)
+open('/root/prompts/mut/%s%s.txt' % (pid, bank), 'w').write(txt)
 print(wt, out, len(txt))
